@@ -424,6 +424,12 @@ pub fn run_main(property: &str, tier: &str) -> i32 {
             println!("WARNING probe={} never fired", name.trim_start_matches("probe."));
         }
     }
+    if stats.get("harness.world_liveness_inconsistency") > 0 {
+        println!(
+            "WARNING harness: {} runs in which the world layer expected a datagram back that the reference model never completed (world-layer inconsistency, see DESIGN 10.2)",
+            stats.get("harness.world_liveness_inconsistency")
+        );
+    }
     if total_runs < requested_runs {
         println!("NOTE time cap reached: {total_runs} of {requested_runs} runs executed");
     }
@@ -522,6 +528,10 @@ pub fn selftest_main(runs: Option<u64>) -> i32 {
             let zero: Vec<&str> = Vec::new();
             for (k, v) in &results[0].1.stats.counters {
                 *union.entry(k.clone()).or_insert(0u64) += *v;
+            }
+            if results[0].1.stats.get("harness.world_liveness_inconsistency") > 0 {
+                println!("selftest {property}/{config}: world-layer liveness inconsistency");
+                bad += 1;
             }
             println!(
                 "selftest {property}/{config}: {} runs x 3 executions (1, 16, 7 workers), digests {}, zero probes: {:?}",
